@@ -19,6 +19,8 @@
 EXTENDS Integers, Sequences, FiniteSets, TLC, SequencesExt, Json
 
 CONSTANTS Lits,        \* distinct literals (strings)
+          Unhashable,  \* literals whose content hash cannot be computed (e.g. a part that announces base64 and is not):
+                       \* duplicate detection does not apply to them, they are kept at every rejected APPEND
           Normal,      \* normal mailboxes (strings)
           MaxSteps,    \* length of a generated behaviour
           MaxUid,      \* bound
@@ -79,7 +81,7 @@ CmdAppend(l, b, fail) ==
                     THEN UNCHANGED <<content, uidNext, hashes>>
                     ELSE /\ content' = AddTo(Rec, <<l>>)
                          /\ uidNext' = [uidNext EXCEPT ![Rec] = @ + 1]
-                         /\ hashes' = hashes \cup {l}
+                         /\ hashes' = hashes \cup ({l} \ Unhashable)
                  /\ Log("Append", <<b, l, 0>>, fail, "NO")
 
 \* COPY positions P of the recovery mailbox to a normal mailbox d.
@@ -132,7 +134,7 @@ Protected(k) ==
 
 \* close and reopen the server: the hash set is rebuilt from what the recovery mailbox holds
 Restart ==
-  /\ hashes' = LitsOf(Rec)
+  /\ hashes' = LitsOf(Rec) \ Unhashable
   /\ UNCHANGED <<content, uidNext>>
   /\ Log("Restart", <<>>, "none", "OK")
 
@@ -162,10 +164,10 @@ EmitBehaviour == (Record /\ steps > MaxSteps) => PrintT(ToJson([trace |-> hist])
 (* Properties *)
 
 \* the hash set is exactly what the recovery mailbox holds: nothing is "known" that is not there
-HashesMatch == hashes = LitsOf(Rec)
+HashesMatch == hashes = LitsOf(Rec) \ Unhashable
 
 \* once per distinct message
-OncePerDistinct == \A l \in Lits : Count(Rec, l) <= 1
+OncePerDistinct == \A l \in Lits \ Unhashable : Count(Rec, l) <= 1
 
 \* APPEND answered OK => the message is in the target mailbox under the announced UID
 OkMeansPresent ==
